@@ -1,12 +1,12 @@
 package main
 
 import (
-	"io"
 	"crypto/sha256"
 	"encoding/hex"
 	"encoding/json"
 	"flag"
 	"fmt"
+	"io"
 	"math/rand"
 	"sort"
 	"strings"
@@ -118,9 +118,25 @@ func storedTree(st *Store, c cid.Cid, name, path string) (FTree, error) {
 				if err != nil || d == nil {
 					return fmt.Errorf("walker: bad shard")
 				}
+				if d.GetType() != pb.Data_HAMTShard || d.GetFanout() == 0 {
+					return fmt.Errorf("walker: not a shard")
+				}
 				pad := len(fmt.Sprintf("%X", d.GetFanout()-1))
+				isShard := func(c cid.Cid) bool {
+					if bb, ok := st.Get(c); ok && c.Prefix().Codec == cid.DagProtobuf {
+						if _, dd, err := decodePB(c, bb); err == nil && dd != nil && dd.GetType() == pb.Data_HAMTShard {
+							return true
+						}
+					}
+					return false
+				}
 				for _, l := range pn.Links() {
-					if len(l.Name) == pad {
+					if len(l.Name) < pad {
+						return fmt.Errorf("walker: short link name")
+					}
+					// a link named by the prefix alone is a child shard - unless what it points at is not a shard:
+					// then it is an entry whose name is empty (which the generators must never produce)
+					if len(l.Name) == pad && isShard(l.Cid) {
 						if err := rec(l.Cid); err != nil {
 							return err
 						}
